@@ -25,7 +25,7 @@ Mk(b, incl, kinds, subs, cstr, comp) ==
      subvals |-> SubV, aval |-> AV, tval |-> TV,
      gsub |-> "none", fsub |-> "none", consts |-> <<>>, symorder |-> <<>>,
      gval |-> Q(61), gsubval |-> Q(67), gconst |-> Q(71), fsubval |-> Q(73), fconst |-> Q(79),
-     avals |-> <<Q(53), Q(89), Q(97)>>, tvals |-> <<Q(59), Q(101), Q(103)>>, alias |-> FALSE,
+     avals |-> <<Q(53), Q(89), Q(97)>>, tvals |-> <<Q(59), Q(101), Q(103)>>, alias |-> FALSE, opts |-> FALSE, preother |-> FALSE,
      qval |-> Q(83), pfull |-> FALSE, psym |-> "none", symodict |-> FALSE, rebuild |-> FALSE, implicit |-> FALSE]
 
 \* rate constants with two unique keys and explicit defaults; substitution of the first / second key
@@ -93,11 +93,12 @@ Cat3 == { Inst(Shapes[i], 0) : i \in {3, 8, 15} }
 Cat2 == { Inst(Shapes[i], 0) : i \in {3, 15} }
 \* argument forms and histories of the builders themselves
 CfgForms(n) == { [cf EXCEPT !.rebuild = rb, !.implicit = im] : cf \in CfgFewBoth(n), rb \in BOOLEAN, im \in BOOLEAN }
+                \cup { [cf EXCEPT !.opts = TRUE, !.preother = po] : cf \in CfgFewBoth(n) \cup CfgUk2(n), po \in BOOLEAN }
                 \cup { [Mk("create_odesys", FALSE, kinds, Uniform(n, "none"), cstr, FALSE)
                           EXCEPT !.psym = ps, !.symorder = so, !.symodict = od] :
                          kinds \in { Uniform(n, "str"), Alternate(n, "ma_fk", "ma_pk"), Uniform(n, "ma_uk2") },
                          cstr \in BOOLEAN, ps \in {"order", "rev"}, so \in {<<>>, subst, Rev(subst)}, od \in BOOLEAN }
-CfgFormsQ(n) == { cf \in CfgForms(n) : (cf.rebuild \/ cf.implicit \/ cf.psym # "none")
+CfgFormsQ(n) == { cf \in CfgForms(n) : (cf.rebuild \/ cf.implicit \/ cf.psym # "none" \/ (cf.opts /\ cf.subs # Uniform(n, "num2")))
                                         /\ (cf.psym = "none" \/ cf.symorder # subst \/ cf.symodict) }
 CfgAllUk2(n) == CfgAll(n) \cup CfgUk2(n)
 CfgMix(n) == CfgSym(n) \cup CfgFewBoth(n)
